@@ -188,3 +188,54 @@ def run(ctx):
             ctx.sample({"function": f, "operands": opsrc, "generic": ref_res, "routes": len(routes)}, cap=6)
 
     core.pmap(do_batch, range(nb))
+
+    # directed: conditions whose head is the function VALUE = / not= (what each, loop and friends expand to), nested in each other; the
+    # compiled special forms (nil-test jumps in while / if) must agree with calling the function values
+    header = PRELUDE
+    conds = ["(,= nil X)", "(,not= nil X)", "(,= X nil)", "(,not= X nil)", "(,= nil (,not= nil X))", "(,not= nil (,= nil X))", "(,= (,= nil X) nil)",
+             "(,not= (,not= X nil) nil)", "(,= nil (,= nil X))", "(,not= nil (,not= nil X))", "(,= nil nil)", "(,not= nil nil)", "(,= nil 1)", "(,not= 1 nil)"]
+    vals = ["nil", "false", "true", "0", ":k", "@[]"]
+    lines = [header]
+    exp = []
+    k = 0
+    for cnd in conds:
+        for v in vals:
+            for form in ("while", "if", "while-closure"):
+                k += 1
+                did = "d%d" % k
+                refc = cnd.replace(",=", "(get FV 0)").replace(",not=", "(get FV 1)")
+                if form == "while":
+                    comp = "(eval ~(do (var x %s) (var n 0) (while %s (++ n) (set x (if (= n 1) false nil)) (if (> n 3) (break))) n))" % (v, cnd.replace("X", "x"))
+                    ref = "(do (var x %s) (var n 0) (while %s (++ n) (set x (if (= n 1) false nil)) (if (> n 3) (break))) n)" % (v, refc.replace("X", "x"))
+                elif form == "while-closure":
+                    comp = "(eval ~(do (var x %s) (var n 0) (def fs @[]) (while %s (def y n) (array/push fs (fn [] y)) (++ n) (set x (if (= n 1) false nil)) (if (> n 3) (break))) [n (length fs)]))" % (v, cnd.replace("X", "x"))
+                    ref = "(do (var x %s) (var n 0) (def fs @[]) (while %s (def y n) (array/push fs (fn [] y)) (++ n) (set x (if (= n 1) false nil)) (if (> n 3) (break))) [n (length fs)])" % (v, refc.replace("X", "x"))
+                else:
+                    comp = "(eval ~(do (def x %s) (if %s :t :f)))" % (v, cnd.replace("X", "x"))
+                    ref = "(do (def x %s) (if %s :t :f))" % (v, refc.replace("X", "x"))
+                lines.append('(route "%s" "compiled" (fn [] %s))' % (did, comp))
+                lines.append('(route "%s" "generic" (fn [] %s))' % (did, ref))
+                exp.append((did, form, cnd, v, comp))
+    script = "\n".join(lines).replace(PRELUDE, PRELUDE + "\n(def FV @[= not=])\n") + "\n"
+    d = core.case_dir()
+    path = os.path.join(d, "directed.janet")
+    open(path, "w").write(script)
+    res = core.run([exe, path], timeout=300, cpu=120)
+    files = {"directed.janet": script}
+    if ctx.check_result(res, files, where="directed"):
+        got = {}
+        for line in res.out.decode(errors="replace").splitlines():
+            p = line.split(" ", 2)
+            if len(p) == 3:
+                got.setdefault(p[0], {})[p[1]] = p[2].split(" | ")[0]
+        for did, form, cnd, v, comp in exp:
+            g = got.get(did, {})
+            ctx.evals()
+            if "compiled" not in g or "generic" not in g:
+                ctx.violation("no-output:directed", "no output for directed case %s" % comp, files)
+                break
+            ctx.count("directed_nilforms")
+            if g["compiled"] != g["generic"]:
+                ctx.violation("value:nilform-%s:%s" % (form, cnd.replace(" ", "")), "x=%s: %s gave %s, the same condition through function values gave %s" % (v, comp, g["compiled"], g["generic"]),
+                              {"case.janet": PRELUDE + "(def FV @[= not=])\n(pp %s)\n" % comp})
+    core.discard(res)
